@@ -86,8 +86,8 @@ PROP = dict(
         "history_open_line_stored", "history_open_line_not_stored",
         # history re-run parses and bounds-checks the index
         "histref_entry_absolute", "histref_entry_negative", "histref_entry_bangbang", "histref_entry_with_full_history", "histref_error_with_empty_history",
-        "histref_error____with_empty_history", "histref_error__n_out_of_range", "histref_error___n_out_of_range", "histref_error_non_numeric_argument",
-        "histref_error_empty_argument", "histref_cases",
+        "histref_error_bangbang_empty_history", "histref_error_absolute_out_of_range", "histref_error_negative_out_of_range", "histref_error_non_numeric",
+        "histref_error_empty_argument", "histref_error_number_beyond_int", "histref_cases",
         # session teardown deferred to the next loop pass
         "sessions_ended_by_exit", "hostile_segments_with_repeated_exit", "hostile_sessions_ended_by_exit", "hostile_calls_on_dead_session", "tcp_exit_then_eof_seen",
         "tcp_repeated_exit_in_one_write",
